@@ -7,13 +7,17 @@
 //   A <p0p1 hex> <stream hex>                every cut set of the stream (mask bit i = cut after byte i), one result per mask
 //   X <p0p1 hex> <stream hex> <n> <msg hex> ...   every cut set; compare with the expected deliveries inside the probe,
 //                                            prints "X <cases> <failures> <first failing mask or ->"
+//   L <n>                                    (__arm__ build) LargestMessageSize() of the receivers created from now on
+// Built with -D__arm__ -include harness/stubs/arm_prelude.h the same source drives the __arm__ branch (fixed 512 byte buffer).
 // Result of M/S/A:  ok <buf hex|-> <required> <n> <delivery hex|->...      Result of R: raw <n> <hex>...
 #include "basetypes.h"
 #include "IConnection.h"
 #include "MsgHeader.h"
 #include <cstdio>
 #include <cstring>
+#include <algorithm>
 #include <iostream>
+#include <memory>
 #include <sstream>
 #include <string>
 #include <vector>
@@ -21,9 +25,14 @@
 using namespace XKoJen;
 typedef std::vector<uint8> Bytes;
 
+static unsigned g_largest = 512;   // __arm__ only: what IMsgReceiver::LargestMessageSize() answers (command "L <n>")
+
 struct Recorder : public IMsgReceiver, public IRawDataReceiver
 {
     uint16 preamble = 0;
+#ifdef __arm__
+    uint16 LargestMessageSize() override { return (uint16)g_largest; }
+#endif
     std::vector<Bytes> got;
     void OnMessageReceived(const uint8* data_buffer, const uint32& number_of_bytes) override
     {
@@ -50,8 +59,19 @@ struct Conn : public IConnection
     // X mode: chunks are fed in place from one exact-size heap copy of the stream (reads past the END of the stream are ASan errors;
     // reads past the end of a chunk show as wrong deliveries)
     void FeedInPlace(const uint8* p, uint32 n) { OnDataReceived(p, n); }
+#ifdef __arm__
+    // the fixed fragment buffer is zeroed here so that runs are reproducible (the class leaves it uninitialised)
+    Conn() { memset(m_fragment_buffer, 0, sizeof(m_fragment_buffer)); }
+    void SetState(const Bytes& b, uint32 req)
+    { memcpy(m_fragment_buffer, b.data(), std::min(b.size(), sizeof(m_fragment_buffer))); m_fragment_buffer_cnt = (uint16)b.size(); m_fragment_buffer_bytes_required = req; }
+    Bytes Buf() const { size_t n = std::min<size_t>(m_fragment_buffer_cnt, sizeof(m_fragment_buffer)); return Bytes(m_fragment_buffer, m_fragment_buffer + n); }
+    Bytes Array() const { return Bytes(m_fragment_buffer, m_fragment_buffer + sizeof(m_fragment_buffer)); }
+    unsigned Cnt() const { return m_fragment_buffer_cnt; }
+    bool Exc() const { return m_has_data_exceeding_fragment_buffer_size; }
+#else
     void SetState(const Bytes& b, uint32 req) { m_fragment_buffer = b; m_fragment_buffer_bytes_required = req; }
     const std::vector<uint8>& Buf() const { return m_fragment_buffer; }
+#endif
     uint32 Required() const { return m_fragment_buffer_bytes_required; }
 };
 
@@ -74,6 +94,11 @@ static void report(std::string& out, const Conn& c, const Recorder& r)
     hex(out, c.Buf());
     out += ' ' + std::to_string(c.Required()) + ' ' + std::to_string(r.got.size());
     for (auto& m : r.got) { out += ' '; hex(out, m); }
+#ifdef __arm__
+    // arm: ... | <m_fragment_buffer_cnt> <m_has_data_exceeding_fragment_buffer_size> <whole fixed buffer>
+    out += " | " + std::to_string(c.Cnt()) + ' ' + (c.Exc() ? '1' : '0') + ' ';
+    hex(out, c.Array());
+#endif
     out += '\n';
 }
 static uint16 preamble_of(const Bytes& p) { return (uint16)(p[0] | (p[1] << 8)); }
@@ -91,7 +116,8 @@ int main()
         {
             is >> tok;
             Recorder r; r.preamble = preamble_of(unhex(tok));
-            Conn c; c.SetMsgReceiver(r);
+            std::unique_ptr<Conn> cp(new Conn); Conn& c = *cp;   // on the heap: a write past the end of the object is an ASan error
+            c.SetMsgReceiver(r);
             if (mode == "S") { std::string b, q; is >> b >> q; c.SetState(unhex(b), (uint32)std::stoul(q)); }
             while (is >> tok) c.Feed(unhex(tok));
             report(out, c, r);
@@ -134,6 +160,7 @@ int main()
             if (mode == "X")
                 out += "X " + std::to_string(masks) + ' ' + std::to_string(failures) + ' ' + (failures ? std::to_string(first) : std::string("-")) + '\n';
         }
+        else if (mode == "L") { is >> g_largest; out += "L\n"; }
         else out += "?\n";
         fputs(out.c_str(), stdout);
         fflush(stdout);
